@@ -260,41 +260,11 @@ def pin_wraptext(p, res):
 # --------------------------------------------------------------- SIB-ESCAPE
 @rule('SIB-ESCAPE', 'N', 'string scanners consume the escape character and, unconditionally, the character after it')
 def sib_escape(p, res):
-    sites = [('scanner_utils.eat_quoted', "scanner.eat(options['escape'])", ('scanner.pos += 1', 'scanner.next()')),
-             ('css_matcher.scan.literal', 'scanner.eat(Chars.Backslash)', ('scanner.next()', 'scanner.pos += 1'))]
-    for fq, eat, steps in sites:
-        f = p.func(fq)
-        pm = p.parents(f)
-        found = False
-        for n in f.body_nodes():
-            if isinstance(n, ast.Expr) and src_of(n.value) == eat:
-                blk = None
-                par = pm.get(n)
-                for field in ('body', 'orelse'):
-                    b = getattr(par, field, None)
-                    if isinstance(b, list) and n in b:
-                        blk = b
-                i = blk.index(n)
-                nxt = src_of(blk[i + 1]) if i + 1 < len(blk) else None
-                found = True
-                if nxt in steps:
-                    res.ok('%s: %s ; %s' % (f.short, eat, nxt))
-                else:
-                    res.bad(F('SIB-ESCAPE', f, n, '%s ; %s' % (eat, nxt), 'the character after an (optional) escape must be skipped unconditionally'))
-        if not found:
-            res.bad(F('SIB-ESCAPE', f, f.node, eat, 'the escape idiom `%s` followed by an unconditional step is gone: an escaped quote now ends the string' % eat))
-    ep = p.func('scanner_utils.eat_pair')
-    s = src_of(ep.node)
-    if "elif ch == options['escape']:\n                scanner.pos += 1" in s and 'if eat_quoted(scanner, options):\n                continue' in s:
-        res.ok('eat_pair: skips the character after an escape, and whole quoted strings')
-    else:
-        res.bad(F('SIB-ESCAPE', ep, ep.node, 'escape / quoted-string handling of eat_pair', 'paired brackets must ignore escaped characters and quoted strings'))
-    es = p.func('abbreviation.tokenizer.utils.escaped')
-    s = src_of(es.node)
-    if 'if scanner.eat(Chars.Escape):\n        scanner.start = scanner.pos\n        if not scanner.eof():\n            scanner.pos += 1\n        return True' in s:
-        res.ok('escaped(): backslash, then one character if there is one')
-    else:
-        res.bad(F('SIB-ESCAPE', es, es.node, 'escaped() body', 'a backslash makes exactly the next character literal (if there is one)'))
+    from .tablecheck import check_table
+    check_table(p, res, 'SIB-ESCAPE', 'scanner_utils.eat_quoted', 'inside a quoted string the character after an (optional) escape is skipped unconditionally; an unclosed string restores the position (or raises under `throws`)')
+    check_table(p, res, 'SIB-ESCAPE', 'css_matcher.scan.literal', 'inside a css string a backslash skips the next character unconditionally')
+    check_table(p, res, 'SIB-ESCAPE', 'scanner_utils.eat_pair', 'paired brackets ignore escaped characters and quoted strings; the nesting counter returns to zero exactly at the matching closer')
+    check_table(p, res, 'SIB-ESCAPE', 'abbreviation.tokenizer.utils.escaped', 'a backslash makes exactly the next character literal (if there is one)')
     res.require_floor(4)
 
 
